@@ -67,7 +67,9 @@ def canon_atom(test: ast.AST) -> Optional[Tuple[str, bool]]:
         return None
     op, left, right = test.ops[0], test.left, test.comparators[0]
     if type(op) in _COMPLEMENT:
-        op, neg = _COMPLEMENT[type(op)](), not neg
+        from .canon import _complementable
+        if _complementable(test):            # < and <= only on a total order (sets are ordered by inclusion)
+            op, neg = _COMPLEMENT[type(op)](), not neg
     lt, rt = norm(left), norm(right)
     if isinstance(op, (ast.Eq, ast.Is)) and rt < lt:
         lt, rt = rt, lt
